@@ -8,12 +8,18 @@ SPEC = hdr_spec(
          "depths and the real one) always bracketed by full dumps that must be identical; submissions continue afterwards; non-trivial = at least 8 submissions",
     props_file="C10", thorough_n=5000,
     assumptions=["chains crossing the 1000-header file boundary and the real 10000 prune depth / automatic clean at height % 10000 are exercised in the thorough tier only (long spine scripts)"],
-    partial_note="observational equivalence of Clean is checked on every generated history, not yet proved.")
+    partial_note="observational equivalence of Clean is a theorem when the best branch is the root branch (no reorganisation pending) in a repository reached by submissions: "
+                 "tip, Header/Hash at every height >= 0 (from memory or from the files Clean wrote), height and most-work-chain flag of every hash, all branches kept "
+                 "(C10_clean_root_reads / _headerAt / _checkHeader). With a pending reorganisation Clean consolidates first (Truncate/Connect/reload): that case, repeated "
+                 "Cleans on already-pruned forests, and 'side branches can still be extended and overtake afterwards' are checked on every generated history, not proved.")
 
 META = dict(
-    technique="Lean 4 proof (prune preservation, consolidation fixed point, extracted call order) + model/implementation correspondence on dump;clean;dump",
+    technique="Lean 4 proof (observational equivalence of Clean for root-best repositories: prune specification, file layout of saveMainBranch, lookups by hash; prune preservation, consolidation fixed point, extracted call order) + model/implementation correspondence on dump;clean;dump",
     text="Theorems for every repository state: pruning keeps the tip height and every retained height readable unchanged and does not touch tip pointer, height map or "
-         "invalid list; consolidate is a no-op once the best branch is the oldest; the clean sequence and constants are the extracted ones. "
+         "invalid list; consolidate is a no-op once the best branch is the oldest; the clean sequence and constants are the extracted ones. For every repository reached by submissions from genesis whose best branch is the root, and every prune "
+         "depth >= 0: a successful Clean keeps every branch, prunes only the root up to a height P <= tip - depth that is at most every fork point, writes header k of the "
+         "best chain as record k % 1000 of file k / 1000 (saveMain_files), and changes no observation: tip height/hash/work, Header(k)/Hash(k) for every k >= 0 (memory or files), "
+         "HashHeight and CheckHeader (height + most-work-chain flag) of EVERY hash, pruned or not. "
          "Every generated Clean is bracketed by full dumps compared by the monitor, and the model (which follows Consolidate/Truncate/Connect/Prune line by line) is compared with the code.",
     note=COMMON_NOTE + "Partial: see evidence.",
 )
